@@ -751,6 +751,13 @@ static void do_loop_cond_number () {
  *  The effect is that all called efuns knows that they won't have destructed objects as
  *  arguments.
  */
+#ifdef NEOLITH_VERIF
+/* verification hook: instruction counter and control/value stack high-water marks (read by the harness) */
+long long verif_insn_count = 0;
+long verif_max_csp = -1;
+long verif_max_sp = -1;
+#endif
+
 void eval_instruction (const char *p) {
 
   int i, n;
@@ -775,6 +782,13 @@ void eval_instruction (const char *p) {
         }
 #endif
       instruction = EXTRACT_UCHAR (pc++);
+#ifdef NEOLITH_VERIF
+      verif_insn_count++;
+      if (csp - control_stack > verif_max_csp)
+        verif_max_csp = (long)(csp - control_stack);
+      if (sp - start_of_stack > verif_max_sp)
+        verif_max_sp = (long)(sp - start_of_stack);
+#endif
       if (!--eval_cost)
         {
           /* [NEOLITH-EXTENSION] allows eval_instruction without current_object */
